@@ -56,8 +56,11 @@ ASSIGN = {
     # NaN, +-inf, +-0.0 among ordinary values; and an all-zero x against such a y (0 * inf, 0 * nan are NaN)
     "special": (S.val_special(0), S.val_special(3), {"add", "mulexact", "unary"}, ("C", "F")),
     "zerox": (S.val_zero(), S.val_special(1), {"add", "mulexact"}, ("C", "C")),
+    # narrow unsigned integers: the sums over the other operand's missing dimensions exceed the entries' type
+    "u8x": (S.val_base(2, 60), S.val_base(5, 7), {"add"}, ("Cu8", "C")),
+    "u8y": (S.val_base(5, 7), S.val_base(2, 60), {"add"}, ("F", "Cu8")),
 }
-QUICK_ASSIGN = ("pow2", "signed", "primes", "halfpow", "base", "intx", "inty", "tiny", "special", "zerox")
+QUICK_ASSIGN = ("pow2", "signed", "primes", "halfpow", "base", "intx", "inty", "tiny", "special", "zerox", "u8x", "u8y")
 TOL = 1e-14
 HISTORY_ASSIGN = ("base", "primes", "halfpow", "signed", "intx")
 HISTORY_ASSIGN_QUICK = ("halfpow", "intx")
